@@ -1,6 +1,7 @@
 package model
 
 import (
+	"math"
 	"verif/harness/resp"
 )
 
@@ -126,6 +127,9 @@ func init() {
 		}
 		if o == nil {
 			return IntExp(0)
+		}
+		if cnt == math.MinInt64 {
+			return Unspecified("LREM count -2^63 (its negation overflows in Redis)")
 		}
 		removed := int64(0)
 		var out [][]byte
